@@ -28,7 +28,9 @@ SepClauses(e) ==
     [ canvas |-> e.w = CanvasW(ns, c) /\ e.h = CanvasH(ns, c),
       sep_rows |-> { p[2] : p \in px } = (IF GapXs(ns, c) = {} THEN {} ELSE SepRows(ns, c)),
       sep_in_gaps |-> \A p \in px : p[1] \in GapXs(ns, c),
-      sep_gaps_filled |-> SepPixels(ns, c) \subseteq px ]
+      sep_gaps_filled |-> SepPixels(ns, c) \subseteq px,
+      \* (transcription level) the separators stand exactly where the code is known to put them
+      sep_as_coded |-> px = { <<x, y>> \in CodedSepXs(ns, c) \X SepRows(ns, c) : OnCanvas(ns, c, x, y) } ]
 Clauses(e) ==
     IF e.exc # "" THEN [ no_exc |-> FALSE ]
     ELSE IF e.op = "fold" THEN FoldClauses(e)
